@@ -11,3 +11,7 @@ import Serif.Proofs.ObjHeap
 import Serif.Props.C01
 import Serif.Drive.C04
 import Serif.Drive.C01
+import Serif.Model.Tab
+import Serif.Proofs.Tab
+import Serif.Props.C02
+import Serif.Drive.C02
